@@ -167,9 +167,9 @@ def rule_p3(ctx, F):
         else:
             ctx.after("P3", "finished_state_erase:sift-after-replace", er, repl, up + down, "after filling the hole the replacement is sifted into place")
             ctx.gate("P3", er, down, [("sift down only when the replacement does not precede its parent",
-                                      [("index > 0", False), ("finished_state_precedes(&states->contents[index], &states->contents[(index - 1) / 2], pool)", False),
+                                      [("index > 0", False), ("index == 0", True), ("finished_state_precedes(&states->contents[index], &states->contents[(index - 1) / 2], pool)", False),
                                        ("finished_state_precedes(_, _, pool)", False)])], accept_desc="sifting the replacement down")
-            ctx.gate("P3", er, up, [("sift up only when the replacement precedes its parent", "finished_state_precedes(_, _, pool)", True), ("…and has a parent", "index > 0", True)], accept_desc="sifting the replacement up")
+            ctx.gate("P3", er, up, [("sift up only when the replacement precedes its parent", "finished_state_precedes(_, _, pool)", True), ("…and has a parent", [("index > 0", True), ("index == 0", False), ("index != 0", True)])], accept_desc="sifting the replacement up")
     pop = ctx.need_fn(F, "finished_state_pop", "P3")
     if pop:
         repl = [pt for pt, n, l, op in stores(pop) if "contents" in show(l) and "contents" in show(n.get("r") or {})]
@@ -473,26 +473,6 @@ def rule_limit_in_use(ctx, F):
             ctx.bad("L2", "capture_list_pool_is_empty:compares-with-the-limit", "capture_list_pool_is_empty no longer compares with max_capture_list_count")
 
 
-def rule_heap(ctx, F):
-    """H1: removing a finished match from the middle of the min-heap restores the heap in *both* directions.  The hole
-    is filled with the last element, which comes from an arbitrary subtree and may sort before the hole's parent; it then
-    has to move up, not down.  Otherwise next_capture hands out captures out of order (the highlighter then attributes a
-    reference's highlight to the wrong match or drops it)."""
-    fn = ctx.need_fn(F, "finished_state_erase", "H1")
-    if not fn:
-        return
-    up = [pt for pt, c in fn.calls() if callee_name(c) == "finished_state_sift_up"]
-    down = [pt for pt, c in fn.calls() if callee_name(c) == "finished_state_sift_down"]
-    key = "finished_state_erase:restores-heap-both-ways"
-    if not up or not down:
-        ctx.bad("H1", key, "finished_state_erase sifts the replacement element only %s: an element taken from the bottom of another subtree can sort before the hole's parent and must move up" % ("down" if down else "up" if up else "nowhere"))
-        return
-    ctx.ok("H1", key, "finished_state_erase calls both finished_state_sift_up and finished_state_sift_down")
-    ctx.gate("H1", fn, down, [("the replacement moves down only if it does not sort before its parent (or is the root)",
-                              [("finished_state_precedes(_, _, pool)", False), ("index > 0", False), ("index == 0", True)])], accept_desc="sifting the replacement down")
-    ctx.gate("H1", fn, up, [("…and up only if it does", "finished_state_precedes(_, _, pool)", True)], accept_desc="sifting the replacement up")
-
-
 def rule_definite(ctx, F):
     """D1: next_capture hands out the captures of an unfinished match only when the match cannot fail any more.
     ts_query_cursor__first_in_progress_capture reports `*is_definite` — in every case in which it is true the state's
@@ -639,7 +619,6 @@ def run(ctx):
         rule_definite(ctx, F)
         rule_both_units(ctx, F)
         rule_limit_in_use(ctx, F)
-        rule_heap(ctx, F)
     rule_rust(ctx)
     return ctx.finish(
         "Pairing and field-coverage rules over query.c: every discard of a query state under capture-list-pool exhaustion is preceded by "
